@@ -25,8 +25,8 @@ def main():
     for p in allp:
         pid = p["id"]
         if pid in props.PROPS:
-            cat, ref, text, note = TEXT[pid]
             pr = props.PROPS[pid]
+            cat, ref, text, note = TEXT.get(pid) or ("proof", "5-" + pid, pr["claim"], pr["note"])
             checks.append({
                 "property_id": pid, "quick_cmd": "./check %s quick" % pid, "thorough_cmd": "./check %s thorough" % pid,
                 "evidence_file": "evidence/%s.json" % pid, "replay_cmd_template": "./check %s --replay {path}" % pid,
